@@ -812,10 +812,15 @@ class SymMixin:
             for nm_, vals in sorted(first_round.items()):
                 alts = []
                 for v_ in vals:
-                    if not any(v_ is a_ or (is_concrete(v_) and not isinstance(v_, Obj) and is_concrete(a_) and not isinstance(a_, Obj) and v_ == a_) for a_ in alts):
+                    if isinstance(v_, Sym):
+                        # what an EARLIER iteration computed: a value of its own, not the same-named quantity of the current iteration
+                        info_ = {k_: x_ for k_, x_ in v_.info.items() if k_ in ("lo", "hi", "len", "vtype", "cls", "maybe_none", "elem")}
+                        v_ = Sym(("prev-iteration", nm_, v_.term), v_.kind, **info_)
+                    if not any(v_ is a_ or (isinstance(v_, Sym) and isinstance(a_, Sym) and v_.term == a_.term) or
+                               (is_concrete(v_) and not isinstance(v_, Obj) and is_concrete(a_) and not isinstance(a_, Obj) and v_ == a_) for a_ in alts):
                         alts.append(v_)
-                if len(alts) > 4:
-                    raise Limit(f"loop-carried local {nm_!r} at {self.site(node)} takes more than 4 different values")
+                if len(alts) > 6:
+                    raise Limit(f"loop-carried local {nm_!r} at {self.site(node)} takes more than 6 different values")
                 for a_ in alts:
                     snap2 = dict(snapshot)
                     snap2[nm_] = a_
